@@ -324,3 +324,28 @@ def mutate(case, rng):
             ops.insert(i, ['add', rng.randrange(len(case['insts'])), rng.choice(PRIOS)])
         c['ops'] = ops
         yield c
+
+
+def shrink(case):
+    """Smaller cases: fewer ops first, then unused instances and classes."""
+    from harness.core import default_shrink
+    yield from default_shrink(case)
+    ops, insts, classes = case['ops'], case['insts'], case['classes']
+    used = {o[1] for o in ops if o[0] == 'add'}
+    for k in range(len(insts) - 1, -1, -1):
+        if k not in used and len(insts) > 1:
+            c = dict(case)
+            c['insts'] = insts[:k] + insts[k + 1:]
+            c['ops'] = [[o[0], o[1] - 1, o[2]] if o[0] == 'add' and o[1] > k else o for o in ops]
+            yield c
+    last = len(classes) - 1
+    if last > 0 and not any(i['cls'] == last for i in insts) \
+            and not any(o[0] in ('remove', 'get') and o[1] == last for o in ops):
+        c = dict(case)
+        c['classes'] = classes[:-1]
+        yield c
+    for o in ops:                      # plain values
+        if o[0] == 'add' and o[2] not in (None, 0):
+            c = dict(case)
+            c['ops'] = [[p[0], p[1], 0] if p is o else p for p in ops]
+            yield c
